@@ -827,6 +827,24 @@ def coating_media(ctx):
             len(rebuilt) >= 2 or (loops and isinstance(
                 loops[0].iter, (ast.Tuple, ast.List)) and
                 len(loops[0].iter.elts) == 2))
+    if not ok and rebuilt and stores and loops and \
+            isinstance(loops[0].iter, ast.Name):
+        # the loop runs over a list that collects every surface whose media
+        # were rebound: list literal + append calls
+        ln = loops[0].iter.id
+        members = set()
+        for n in ast.walk(si.node):
+            if isinstance(n, ast.Assign) and isinstance(
+                    n.targets[0], ast.Name) and n.targets[0].id == ln and \
+                    isinstance(n.value, (ast.List, ast.Tuple)):
+                members |= {unparse(x) for x in n.value.elts}
+            if isinstance(n, ast.Call) and isinstance(n.func, ast.Attribute) \
+                    and n.func.attr == 'append' and \
+                    unparse(n.func.value) == ln and n.args:
+                members.add(unparse(n.args[0]))
+        bases = {unparse(s_.targets[0].value) for s_ in stores}
+        ok = bases <= members and \
+            loops[0].lineno > max(s_.lineno for s_ in stores)
     if ok:
         res.ok('set_index rebuilds the Fresnel coatings of both surfaces '
                'after rebinding the media')
